@@ -368,6 +368,146 @@ func runTable(c *core.Ctx) []core.Obligation {
 			}
 		}
 		add("frames:orthonormal-right-handed", siteF, ok, "for all 6 faces U x V = W and W is the face's outward normal", why)
+		// Cell.RectBound chooses the vertex pair that bounds the latitude from the direction of the face's u and v
+		// axes (after round-8 seed C12-r8m1, the table lookups uAxis(face).Z == 0 / vAxis(face).Z == 0 replaced by
+		// hand-written tests on the face number, one of them wrong): whatever the two conditions are, they must be
+		// true for exactly the faces whose u (v) axis has no z component according to faceUVWAxes.
+		if fobj := c.LookupFunc("s2", "Cell", "RectBound"); fobj != nil && c.Decl(fobj) != nil {
+			decl := c.Decl(fobj)
+			info := c.Pkgs["s2"].TypesInfo
+			var conds []ast.Expr
+			ast.Inspect(decl.Body, func(n ast.Node) bool {
+				ifs, ok := n.(*ast.IfStmt)
+				if !ok || ifs.Else == nil || len(ifs.Body.List) != 1 {
+					return true
+				}
+				inner, ok := ifs.Body.List[0].(*ast.IfStmt)
+				if !ok || len(inner.Body.List) != 1 {
+					return true
+				}
+				if as, ok := inner.Body.List[0].(*ast.AssignStmt); ok && len(as.Lhs) == 1 {
+					if id, ok := as.Lhs[0].(*ast.Ident); ok && (id.Name == "i" || id.Name == "j") {
+						conds = append(conds, ifs.Cond)
+					}
+				}
+				return true
+			})
+			var eval func(e ast.Expr, f int64) (bool, bool)
+			faceVal := func(e ast.Expr, f int64) (int64, bool) {
+				e = ast.Unparen(e)
+				if tv, ok := info.Types[e]; ok && tv.Value != nil {
+					v, ok := constant.Int64Val(constant.ToInt(tv.Value))
+					return v, ok
+				}
+				if call, ok := e.(*ast.CallExpr); ok && len(call.Args) == 1 {
+					e = ast.Unparen(call.Args[0])
+				}
+				if sel, ok := e.(*ast.SelectorExpr); ok && sel.Sel.Name == "face" {
+					return f, true
+				}
+				return 0, false
+			}
+			axisZero := func(e ast.Expr, f int64) (bool, bool) {
+				// uAxis(int(c.face)).Z == 0
+				be, ok := ast.Unparen(e).(*ast.BinaryExpr)
+				if !ok || (be.Op != token.EQL && be.Op != token.NEQ) {
+					return false, false
+				}
+				sel, ok := ast.Unparen(be.X).(*ast.SelectorExpr)
+				if !ok {
+					return false, false
+				}
+				call, ok := ast.Unparen(sel.X).(*ast.CallExpr)
+				if !ok {
+					return false, false
+				}
+				fn, ok := call.Fun.(*ast.Ident)
+				if !ok {
+					return false, false
+				}
+				axis := map[string]int{"uAxis": 0, "vAxis": 1, "unitNorm": 2}
+				a, ok := axis[fn.Name]
+				if !ok {
+					return false, false
+				}
+				comp := map[string]int{"X": 0, "Y": 1, "Z": 2}[sel.Sel.Name]
+				k, ok := faceVal(be.Y, f)
+				if !ok {
+					return false, false
+				}
+				r := frames[f][a][comp] == k
+				if be.Op == token.NEQ {
+					r = !r
+				}
+				return r, true
+			}
+			eval = func(e ast.Expr, f int64) (bool, bool) {
+				e = ast.Unparen(e)
+				if r, ok := axisZero(e, f); ok {
+					return r, true
+				}
+				switch x := e.(type) {
+				case *ast.UnaryExpr:
+					if x.Op == token.NOT {
+						r, ok := eval(x.X, f)
+						return !r, ok
+					}
+				case *ast.BinaryExpr:
+					switch x.Op {
+					case token.LAND, token.LOR:
+						l, ok1 := eval(x.X, f)
+						r, ok2 := eval(x.Y, f)
+						if !ok1 || !ok2 {
+							return false, false
+						}
+						if x.Op == token.LAND {
+							return l && r, true
+						}
+						return l || r, true
+					case token.EQL, token.NEQ, token.LSS, token.LEQ, token.GTR, token.GEQ:
+						l, ok1 := faceVal(x.X, f)
+						r, ok2 := faceVal(x.Y, f)
+						if !ok1 || !ok2 {
+							return false, false
+						}
+						switch x.Op {
+						case token.EQL:
+							return l == r, true
+						case token.NEQ:
+							return l != r, true
+						case token.LSS:
+							return l < r, true
+						case token.LEQ:
+							return l <= r, true
+						case token.GTR:
+							return l > r, true
+						default:
+							return l >= r, true
+						}
+					}
+				}
+				return false, false
+			}
+			siteR := c.Pos(decl.Pos())
+			if len(conds) != 2 {
+				add("frames:Cell.RectBound:axis-direction-tests", siteR, false, "", fmt.Sprintf("unresolved anchor: %d axis-direction tests found in Cell.RectBound, 2 expected", len(conds)))
+			} else {
+				okR, whyR := true, ""
+				for ai, cond := range conds {
+					for f := int64(0); f < 6; f++ {
+						got, evalOK := eval(cond, f)
+						want := frames[f][ai][2] == 0
+						if !evalOK {
+							okR, whyR = false, "the test `"+types.ExprString(cond)+"` could not be evaluated for a face number"
+						} else if got != want && okR {
+							okR = false
+							whyR = fmt.Sprintf("the test `%s` is %v for face %d, but faceUVWAxes says the %s-axis of face %d has z component %d: the wrong diagonal pair of vertices is taken for the latitude range on that face, so the bound is too narrow and leaves out vertices of the cell itself", types.ExprString(cond), got, f, []string{"u", "v"}[ai], f, frames[f][ai][2])
+						}
+					}
+				}
+				add("frames:Cell.RectBound:axis-direction-tests", siteR, okR, "both tests agree with faceUVWAxes on all six faces", whyR)
+			}
+		}
 		// faceUVWFaces
 		tf, okT := intTable0(facesE, infoS)
 		okF, whyF := okT, "faceUVWFaces is no longer a constant table"
@@ -740,9 +880,10 @@ func runMirror(c *core.Ctx) []core.Obligation {
 	_ = strings.Join
 	obs = append(obs, stToUVAntisymmetric(c))
 	obs = append(obs, rawStepsArithmetic(c)...)
+	obs = append(obs, posMaskAndShifts(c)...)
+	obs = append(obs, latEdgeMirror(c), shrinkToFitMirror(c))
 	return obs
 }
-
 
 // stToUVAntisymmetric (after round-6 seed C04-r6m3, the s < 0.5 branch rewritten as the algebraically equal
 // (1/3.)*(2*s-1)*(3-2*s)): the same cube-edge point is computed on one face from s and on the neighbouring face from
@@ -853,7 +994,6 @@ func stToUVAntisymmetric(c *core.Ctx) core.Obligation {
 	return core.Ob("R-MIRROR", construct, site, f.FullName(), core.Violated, "upper "+types.ExprString(upper)+", lower "+types.ExprString(lower)+": "+bad)
 }
 
-
 // rawStepsArithmetic (after round-6 seed C01-r6m3, Advance rewritten as clamp(distanceFromBegin() + steps)): the step
 // count of Advance / AdvanceWrap is any int64. Both functions first bring it into the range of the level (comparing it
 // with the largest possible step, or reducing it modulo the curve length) and only then do arithmetic with it; a signed
@@ -896,6 +1036,84 @@ func rawStepsArithmetic(c *core.Ctx) []core.Obligation {
 		} else {
 			obs = append(obs, core.Ob("R-MIRROR", construct, c.Pos(fn.Pos()), core.FuncName(fn), core.Discharged, "the step count is only compared or reduced (%) before any signed arithmetic uses it"))
 		}
+	}
+	return obs
+}
+
+// posMaskAndShifts (after round-8 seeds C01-r8m1, Pos() masked with lsbForLevel(0)-1, one bit short, and C01-r8m2,
+// `uint64(face<<PosBits)` - the shift done in `int` before the widening conversion).
+//
+// (pos-mask) A cell id is face (3 bits) followed by the position (PosBits = 61 bits); Face() shifts the position away
+// and Pos() must keep exactly those PosBits bits: its mask is the constant 2^PosBits - 1.
+//
+// (int-shift) `int` is 32 bits wide on 32-bit platforms. A shift of an int (or uint) value by a constant of 31 or more
+// produces 0 there, silently: every such shift in the library is done on a 64-bit type.
+func posMaskAndShifts(c *core.Ctx) []core.Obligation {
+	var obs []core.Obligation
+	posBits := int64(-1)
+	if pkg := c.Pkgs["s2"]; pkg != nil {
+		if o, ok := pkg.Types.Scope().Lookup("PosBits").(*types.Const); ok {
+			if v, ok := constant.Int64Val(constant.ToInt(o.Val())); ok {
+				posBits = v
+			}
+		}
+	}
+	if fn := c.Fn("s2", "CellID", "Pos"); fn != nil && posBits > 0 {
+		ok, found := false, false
+		core.AllInstrs(fn, func(in ssa.Instruction) {
+			bo, isBo := in.(*ssa.BinOp)
+			if !isBo || bo.Op != token.AND {
+				return
+			}
+			found = true
+			for _, o := range []ssa.Value{bo.X, bo.Y} {
+				if k, isK := o.(*ssa.Const); isK && k.Value != nil {
+					if u, exact := constant.Uint64Val(constant.ToInt(k.Value)); exact && u == (uint64(1)<<uint(posBits))-1 {
+						ok = true
+					}
+				}
+			}
+		})
+		switch {
+		case !found:
+			obs = append(obs, core.Ob("R-MIRROR", "CellID.Pos:mask-is-PosBits", c.Pos(fn.Pos()), core.FuncName(fn), core.Violated, "unresolved anchor: Pos() no longer masks the id"))
+		case ok:
+			obs = append(obs, core.Ob("R-MIRROR", "CellID.Pos:mask-is-PosBits", c.Pos(fn.Pos()), core.FuncName(fn), core.Discharged, fmt.Sprintf("the mask is the constant 2^%d - 1, the bits Face() shifts away", posBits)))
+		default:
+			obs = append(obs, core.Ob("R-MIRROR", "CellID.Pos:mask-is-PosBits", c.Pos(fn.Pos()), core.FuncName(fn), core.Violated,
+				fmt.Sprintf("Pos() does not mask the id with the constant 2^%d - 1: Face() and Pos() must split the 64 bits between them, so with any other mask CellIDFromFacePosLevel(ci.Face(), ci.Pos(), ci.Level()) is not ci for the ids whose lost bit is set (the second half of every face)", posBits)))
+		}
+	} else {
+		obs = append(obs, core.Ob("R-MIRROR", "CellID.Pos:mask-is-PosBits", "-", "", core.Violated, "unresolved anchor"))
+	}
+	nshift, bad := 0, 0
+	for _, fn := range c.GeoFuncs() {
+		n := 0
+		core.AllInstrs(fn, func(in ssa.Instruction) {
+			bo, ok := in.(*ssa.BinOp)
+			if !ok || bo.Op != token.SHL {
+				return
+			}
+			nshift++
+			b, ok := bo.Type().Underlying().(*types.Basic)
+			if !ok || (b.Kind() != types.Int && b.Kind() != types.Uint && b.Kind() != types.Uintptr) {
+				return
+			}
+			k, isK := core.ConstInt(core.StripConv(bo.Y))
+			if !isK || k < 31 {
+				return
+			}
+			if _, constOperand := bo.X.(*ssa.Const); constOperand {
+				return // a constant expression: the compiler would have rejected an overflow
+			}
+			n++
+			bad++
+			obs = append(obs, core.Ob("R-MIRROR", fmt.Sprintf("int-shift:%s#%d", core.FuncName(fn), n), c.Pos(bo.Pos()), core.FuncName(fn), core.Violated,
+				fmt.Sprintf("a value of type %s is shifted left by %d: int is 32 bits wide on 32-bit platforms, where this shift yields 0 (widening the RESULT to 64 bits afterwards does not bring the bits back) - ids built this way all land on face 0 there", b.Name(), k)))
+		})
+	}
+	if bad == 0 {
+		obs = append(obs, core.Ob("R-MIRROR", "int-shift:scan", "-", "", core.Discharged, fmt.Sprintf("%d left shifts examined; none shifts a platform-sized integer by 31 bits or more", nshift)))
 	}
 	return obs
 }
